@@ -120,6 +120,26 @@ def run(tier, seed):
         if any(vals[i + 1] >= vals[i] for i in range(len(vals) - 1)):
             k = [i for i in range(len(vals) - 1) if vals[i + 1] >= vals[i]][0]
             v.violation("form factor of %s does not decrease monotonically on [0, 2] (first rise near s = %.3f)" % (el, grid[k]), desc)
+    # FormFactor evaluates the table as it is now: an entry added at run time (deuterium = hydrogen's numbers under a new key) and an
+    # entry whose coefficient list is replaced by a new list object are looked up like any other
+    from xfab import atomlib
+    keep_h = atomlib.formfactor["H"]
+    try:
+        atomlib.formfactor["D"] = list(keep_h)
+        got_d = [float(structure.FormFactor("D", s_)) for s_ in (0.0, 0.3, 1.1)]
+        want_d = [float(structure.FormFactor("H", s_)) for s_ in (0.0, 0.3, 1.1)]
+        newc = [1.1 * q_ if j_ < 4 else q_ for j_, q_ in enumerate(keep_h)]
+        atomlib.formfactor["H"] = newc
+        got_h = [float(structure.FormFactor("H", s_)) for s_ in (0.0, 0.3, 1.1)]
+        want_h = [sum(newc[i] * math.exp(-newc[i + 4] * s_ * s_) for i in range(4)) + newc[8] for s_ in (0.0, 0.3, 1.1)]
+        if not all(abs(a_ - b_) <= 1e-12 for a_, b_ in zip(got_d, want_d)) or not all(abs(a_ - b_) <= 1e-9 for a_, b_ in zip(got_h, want_h)):
+            v.violation("FormFactor does not follow the table: after adding the key 'D' and replacing the coefficient list of 'H' it returns %s / %s, the "
+                        "table gives %s / %s" % (got_d, got_h, want_d, want_h), {"element": "H/D"})
+    except Exception as ex_:
+        v.violation("FormFactor raised %r for an entry added to / replaced in the form-factor table at run time" % (ex_,), {"element": "H/D"})
+    finally:
+        atomlib.formfactor["H"] = keep_h
+        atomlib.formfactor.pop("D", None)
     cov = {"states": r.distinct, "transitions": r.generated, "traces_validated_against_impl": len(r.records),
            "entries": len(r.records), "evaluations_on_grid": nev, "exhaustive": True,
            "settled_analytically_monotone": sum(1 for x in r.records if x["monotone"]),
